@@ -100,8 +100,8 @@ pub const SITES: [(&str, &str, bool); 44] = [
 ];
 
 thread_local! {
-    /// when set, the use-site menu is cut to its first eight members
-    pub static FEW_SITES: std::cell::Cell<bool> = std::cell::Cell::new(false);
+    /// when not 0, the use-site menu is cut to its first members
+    pub static SITE_LIMIT: std::cell::Cell<usize> = std::cell::Cell::new(0);
 }
 
 /// Generates one world. `site_cost`: cost of choosing a non-default use site.
@@ -183,12 +183,25 @@ pub fn world(ch: &mut Chooser) -> World {
         "FUNCTION_BLOCK Callee VAR_INPUT a : INT ; b : BOOL ; END_VAR VAR_OUTPUT q : INT ; END_VAR VAR_IN_OUT io : INT ; END_VAR q := a ; END_FUNCTION_BLOCK",
     );
     let fnret = ch.pick("fnresult", &["INT", "enumeration"], 1);
-    let func = if fnret == 0 {
-        d("Fn", "function", "FUNCTION Fn : INT VAR_INPUT a : INT ; END_VAR Fn := a + 1 ; END_FUNCTION")
+    // constants of a function: the rules about constants hold in every kind of unit
+    let fnk = ch.pick("fnconst", &["none", "INT:=5", "INT-no-init", "fb-instance", "enum-no-init"], 1);
+    let fnk_s = ["", " VAR CONSTANT fk : INT := 5 ; END_VAR", " VAR CONSTANT fk : INT ; END_VAR", " VAR CONSTANT fk : Callee ; END_VAR", " VAR CONSTANT fk : Level ; END_VAR"][fnk];
+    match fnk {
+        2 | 4 => {
+            w.violated.insert("P0016");
+        }
+        3 => {
+            w.violated.insert("P0017");
+        }
+        _ => {}
+    }
+    let mut func = if fnret == 0 {
+        d("Fn", "function", &format!("FUNCTION Fn : INT VAR_INPUT a : INT ; END_VAR{} Fn := a + 1 ; END_FUNCTION", fnk_s))
     } else {
         // a second function whose result is an enumeration value; Fn stays for the use sites
-        d("Fn", "function", "FUNCTION Fn : INT VAR_INPUT a : INT ; END_VAR Fn := a + 1 ; END_FUNCTION FUNCTION Fe : Level VAR_INPUT a : INT ; END_VAR Fe := Low ; END_FUNCTION")
+        d("Fn", "function", &format!("FUNCTION Fn : INT VAR_INPUT a : INT ; END_VAR{} Fn := a + 1 ; END_FUNCTION FUNCTION Fe : Level VAR_INPUT a : INT ; END_VAR Fe := Low ; END_FUNCTION", fnk_s))
     };
+    func.faulty = fnk >= 2;
 
     // ---------------- host
     let host_kind = ch.pick("host", &["FB", "PROGRAM"], 0);
@@ -242,15 +255,21 @@ pub fn world(ch: &mut Chooser) -> World {
     }
     let ext = ch.pick("ext", &["CONSTANT", "none", "not-constant"], 1);
     let ext_s = ["VAR_EXTERNAL CONSTANT G : INT ; END_VAR", "", "VAR_EXTERNAL G : INT ; END_VAR"][ext];
-    let gconst = ch.pick("global", &["CONSTANT", "plain"], 1) == 0;
+    // the global G: a constant or not, with or without an initial value, declared by the configuration or by the resource
+    let gopt = ch.pick("global", &["CONSTANT", "plain", "CONSTANT-without-initial-value", "CONSTANT-in-the-resource", "CONSTANT-in-the-resource-without-initial-value", "plain-in-the-resource"], 1);
+    let gconst = matches!(gopt, 0 | 2 | 3 | 4);
     if ext == 2 && gconst {
         w.violated.insert("P0018");
+    }
+    if matches!(gopt, 2 | 4) {
+        w.violated.insert("P0016");
     }
     // ---------------- use site
     let site_names: Vec<&str> = SITES.iter().map(|s| s.0).collect();
     // (the deepest tier expands three deviations over the first eight sites only: the complete site menu times three
     // deviations is tens of millions of worlds; two deviations over every site is the quick tier)
-    let site = if FEW_SITES.with(|f| f.get()) { ch.pick("site", &site_names[..8], 0) } else { ch.pick("site", &site_names, 0) };
+    let limit = SITE_LIMIT.with(|f| f.get());
+    let site = if limit > 0 { ch.pick("site", &site_names[..limit.min(site_names.len())], 0) } else { ch.pick("site", &site_names, 0) };
     // names that something else declares (a function block, a function, a program, a type) are no variables
     // names that another declaration of the unit declares for itself (an input of Callee, the instance of Main, a value
     // of the enumeration's neighbour, a field of the structure) are not declared here
@@ -276,7 +295,7 @@ pub fn world(ch: &mut Chooser) -> World {
     // ---------------- fb invocation
     let inv = ch.pick(
         "invoke",
-        &["formal-all", "none", "no-args", "formal-some", "positional-exact", "formal+inout", "unknown-formal", "mixed", "positional-too-few", "positional-too-many", "unknown-output", "output-only", "formal-wrong-case", "positional+output", "positional+unknown-output", "unknown-output-only", "output-named-as-input", "input-named-as-output", "in-out-named-as-output"],
+        &["formal-all", "none", "no-args", "formal-some", "positional-exact", "formal+inout", "unknown-formal", "mixed", "positional-too-few", "positional-too-many", "unknown-output", "output-only", "formal-wrong-case", "positional+output", "positional+unknown-output", "unknown-output-only", "output-named-as-input", "input-named-as-output", "in-out-named-as-output", "output-first+unknown-formal", "unknown-output-first"],
         1,
     );
     let inv_s = [
@@ -300,6 +319,9 @@ pub fn world(ch: &mut Chooser) -> World {
         "inst ( a := x , q := y ) ;",
         "inst ( a := x , b => y ) ;",
         "inst ( a := x , io => y ) ;",
+        // outputs written before inputs
+        "inst ( q => y , a := x , zz := x ) ;",
+        "inst ( zz => y , a := x ) ;",
     ][inv];
     match inv {
         6 => {
@@ -311,10 +333,10 @@ pub fn world(ch: &mut Chooser) -> World {
         8 | 9 => {
             w.violated.insert("P0008");
         }
-        10 | 14 | 15 | 17 | 18 => {
+        10 | 14 | 15 | 17 | 18 | 20 => {
             w.violated.insert("P0009");
         }
-        16 => {
+        16 | 19 => {
             w.violated.insert("P0007");
         }
         _ => {}
@@ -340,13 +362,20 @@ pub fn world(ch: &mut Chooser) -> World {
     } else {
         (inv_s.to_string(), pre_s.to_string(), stmt)
     };
+    // a CASE statement with a range as its label (the subrange rule holds for every range that is written)
+    let crange = ch.pick("caserange", &["none", "1..3", "inv:3..1", "equal:2..2"], 1);
+    let crange_s = ["", "CASE y OF 1 .. 3 : y := 1 ; END_CASE ;", "CASE y OF 3 .. 1 : y := 1 ; END_CASE ;", "CASE y OF 2 .. 2 : y := 1 ; END_CASE ;"][crange];
+    if crange >= 2 {
+        // the minimum of a range is below its maximum (equal limits are no range either)
+        w.violated.insert("P0004");
+    }
     let (hopen, hclose) = if host_kind == 0 { ("FUNCTION_BLOCK Host", "END_FUNCTION_BLOCK") } else { ("PROGRAM Host", "END_PROGRAM") };
     let host_words = format!(
-        "{} VAR_INPUT a_in : INT ; END_VAR VAR_OUTPUT q_out : INT ; END_VAR VAR_IN_OUT io_v : INT ; END_VAR VAR {}x : {} ; y : INT ; lv : {}{} ; arr : Arr ; pts : Pts ; str : STRING ; END_VAR {} {} {} {} {} q_out := y ; {}",
-        hopen, inst_decl, xtype, lv_type, lv_init_s, kdecl_s, ext_s, inv_s, pre_s, stmt, hclose
+        "{} VAR_INPUT a_in : INT ; END_VAR VAR_OUTPUT q_out : INT ; END_VAR VAR_IN_OUT io_v : INT ; END_VAR VAR {}x : {} ; y : INT ; lv : {}{} ; arr : Arr ; pts : Pts ; str : STRING ; END_VAR {} {} {} {} {} {} q_out := y ; {}",
+        hopen, inst_decl, xtype, lv_type, lv_init_s, kdecl_s, ext_s, inv_s, crange_s, pre_s, stmt, hclose
     );
     let mut host = d("Host", if host_kind == 0 { "fb" } else { "program" }, &host_words);
-    host.faulty = w.violated.iter().any(|c| matches!(*c, "P0014" | "P0022" | "P0016" | "P0017" | "P0018" | "P0015" | "P0006" | "P0007" | "P0008" | "P0009" | "P0021" | "P0029"));
+    host.faulty = w.violated.iter().any(|c| matches!(*c, "P0014" | "P0022" | "P0016" | "P0017" | "P0018" | "P0015" | "P0006" | "P0007" | "P0008" | "P0009" | "P0021" | "P0029")) || crange >= 2;
 
     let main = if host_kind == 0 {
         d("Main", "program", "PROGRAM Main VAR c : Host ; END_VAR c ( ) ; END_PROGRAM")
@@ -370,6 +399,8 @@ pub fn world(ch: &mut Chooser) -> World {
         w.violated.insert("P0011");
     }
     let g2 = ch.pick("global2", &["none", "of-enumeration-type", "of-structure-type", "of-unknown-type"], 1);
+    // a resource holds one VAR_GLOBAL block: when G is declared there, the second global is not written
+    let g2 = if gopt >= 3 { 0 } else { g2 };
     let g2_s = ["", "g2 : Level ; ", "g2 : Pt ; ", "g2 : Missing ; "][g2];
     if g2 == 3 {
         w.violated.insert("P0022");
@@ -378,15 +409,26 @@ pub fn world(ch: &mut Chooser) -> World {
         "cfg",
         "configuration",
         &format!(
-            "CONFIGURATION cfg VAR_GLOBAL {}G : INT := 1 ; END_VAR RESOURCE res ON PLC {}{} PROGRAM inst1{} : Main ; END_RESOURCE{} END_CONFIGURATION",
-            if gconst { "CONSTANT " } else { "" },
+            "CONFIGURATION cfg {}RESOURCE res ON PLC {}{}{} PROGRAM inst1{} : Main ; END_RESOURCE{} END_CONFIGURATION",
+            match gopt {
+                0 => "VAR_GLOBAL CONSTANT G : INT := 1 ; END_VAR ",
+                1 => "VAR_GLOBAL G : INT := 1 ; END_VAR ",
+                2 => "VAR_GLOBAL CONSTANT G : INT ; END_VAR ",
+                _ => "",
+            },
+            match gopt {
+                3 => "VAR_GLOBAL CONSTANT G : INT := 1 ; END_VAR ",
+                4 => "VAR_GLOBAL CONSTANT G : INT ; END_VAR ",
+                5 => "VAR_GLOBAL G : INT := 1 ; END_VAR ",
+                _ => "",
+            },
             if g2 == 0 { String::new() } else { format!("VAR_GLOBAL {}END_VAR ", g2_s) },
             task_s,
             with_s,
             res2_s
         ),
     );
-    cfg.faulty = task == 2 || task == 5 || g2 == 3;
+    cfg.faulty = task == 2 || task == 5 || g2 == 3 || matches!(gopt, 2 | 4);
     let pos = ch.pick("hostpos", &["host-after-its-dependencies", "host-first"], 0);
     w.decls = if pos == 0 { vec![tdecl, callee, func, host, main, cfg] } else { vec![host, main, cfg, tdecl, callee, func] };
     w.labels.extend(ch.labels.iter().cloned());
